@@ -22,23 +22,27 @@ def _is_call_stmt(st, text):
     return isinstance(st, ast.Expr) and dump(st.value) == dump(ast.parse(text, mode='eval').body)
 
 
-def _interp_call(st, target: str, var: str, where: str):
-    """`<target> = self._ds['<var>'].interp(pressure_level=E, latitude=gt_point.location.latitude,
-    longitude=gt_point.location.longitude)`  ->  E (ast)"""
+def _interp_call(st, target: str, where: str):
+    """`<target> = self._ds['u' | 'v'].interp(pressure_level=E, latitude=gt_point.location.latitude,
+    longitude=gt_point.location.longitude)`  ->  (E (ast), variable name)"""
     if not (isinstance(st, ast.Assign) and len(st.targets) == 1 and isinstance(st.targets[0], ast.Name)
             and st.targets[0].id == target):
         raise Untranslatable(f'{where}: expected assignment to {target}')
     c = st.value
-    if not (isinstance(c, ast.Call) and not c.args and isinstance(c.func, ast.Attribute) and c.func.attr == 'interp'
-            and dump(c.func.value) == dump(ast.parse(f"self._ds['{var}']", mode='eval').body)):
-        raise Untranslatable(f"{where}: {target} must be self._ds['{var}'].interp(...)")
+    var = None
+    if isinstance(c, ast.Call) and not c.args and isinstance(c.func, ast.Attribute) and c.func.attr == 'interp':
+        for cand in ('u', 'v'):
+            if dump(c.func.value) == dump(ast.parse(f"self._ds['{cand}']", mode='eval').body):
+                var = cand
+    if var is None:
+        raise Untranslatable(f"{where}: {target} must be self._ds['u' or 'v'].interp(...)")
     kw = {k.arg: k.value for k in c.keywords}
     if sorted(kw) != ['latitude', 'longitude', 'pressure_level']:
         raise Untranslatable(f'{where}: interp keywords {sorted(kw)}')
     for name in ('latitude', 'longitude'):
         if dump(kw[name]) != dump(ast.parse(f'gt_point.location.{name}', mode='eval').body):
             raise Untranslatable(f'{where}: interp {name}= must be gt_point.location.{name}')
-    return kw['pressure_level']
+    return kw['pressure_level'], var
 
 
 def extract_c16(repo: Path) -> str:
@@ -79,8 +83,10 @@ def extract_c16(repo: Path) -> str:
         raise Untranslatable(f'{where}: first statement must be self._require_data(time)')
     if not isinstance(s_assert, ast.Assert):
         raise Untranslatable(f'{where}: second statement must be the assert on self._ds')
-    pl_u = _interp_call(s_u, 'wind_u', 'u', where)
-    pl_v = _interp_call(s_v, 'wind_v', 'v', where)
+    pl_u, var_u = _interp_call(s_u, 'wind_u', where)
+    pl_v, var_v = _interp_call(s_v, 'wind_v', where)
+    if {var_u, var_v} != {'u', 'v'}:
+        raise Untranslatable(f'{where}: wind_u / wind_v must read the two file variables u and v (found {var_u}, {var_v})')
     env = {'altitude': 'v_altitude'}
     m.known['pressure_at_altitude_isa_bada4'] = 1
     m.coqname['pressure_at_altitude_isa_bada4'] = 'isa_pressure'
@@ -121,6 +127,9 @@ def extract_c16(repo: Path) -> str:
     m.raw('Definition ground_speed_kernel (v_tas v_azimuth v_wind_u v_wind_v : T N) : T N :=\n'
           '  magnitude (u_air v_tas (heading_given v_azimuth)) (v_air v_tas (heading_given v_azimuth)) '
           'v_wind_u v_wind_v.')
+    # the same, as a function of the file's eastward (f_u) and northward (f_v) wind at the point
+    m.raw('Definition ground_speed_query (v_tas v_azimuth f_u f_v : T N) : T N :=\n'
+          f'  ground_speed_kernel v_tas v_azimuth f_{var_u} f_{var_v}.')
     return m.text()
 
 
